@@ -393,6 +393,15 @@ func judgeC03(root string, c c03Case) (string, string) {
 		}
 		return "outside-changed", fmt.Sprintf("something outside the destination changed (Receive returned %v): %s", rerr, lineDiff(before, after))
 	}
+	// content for an id that cannot have been requested (id 7 with at most 3 STATs) => failure
+	for _, sy := range c.Script {
+		if sy.T == "fin" {
+			break
+		}
+		if sy.T == "data" && sy.ID == 7 && rerr == nil {
+			return "unrequested-data-accepted", "the stream carries DATA for id 7, which was never announced or requested, but Receive returned nil"
+		}
+	}
 	// first offending STAT => failure, nothing at or after it applied
 	sp := &statSpec{spec: specState{dirs: map[string]bool{}}, files: map[string]bool{}}
 	bad := -1
